@@ -73,7 +73,7 @@ func (eng) Rule(mode string) string {
 // ---------- case format ----------
 
 type op struct {
-	Op   string `json:"op"` // ev | wm | rescale | save
+	Op   string `json:"op"` // ev | wm | ckpt | rescale | save
 	Key  uint64 `json:"key,omitempty"`
 	Ns   uint64 `json:"ns,omitempty"`
 	Ek   uint64 `json:"ek,omitempty"`
@@ -303,6 +303,34 @@ type cluster struct {
 	adapters map[string]*opAdapter
 	amu      sync.Mutex
 	js       *jobSide // c14: the real snapshot store of the running job
+	sr       *recSR   // c14: the source runner the job talks to (records StartCheckpoint)
+	asm      *jobs.Assembly
+}
+
+// recSR is the job's view of source runner "sr0": it records the StartCheckpoint rounds the job broadcasts (the barriers
+// themselves are injected by the harness)
+type recSR struct {
+	proto.UnimplementedSourceRunner
+	mu      sync.Mutex
+	started []uint64
+}
+
+func (s *recSR) ID() string   { return "sr0" }
+func (s *recSR) Host() string { return "h" }
+func (s *recSR) Deploy(context.Context, *workerpb.DeploySourceRunnerRequest) error { return nil }
+func (s *recSR) AssignSplits(context.Context, []*workerpb.SourceSplit) error       { return nil }
+func (s *recSR) StartCheckpoint(ctx context.Context, id uint64) error {
+	s.mu.Lock()
+	s.started = append(s.started, id)
+	s.mu.Unlock()
+	return nil
+}
+func (s *recSR) take() []uint64 {
+	s.mu.Lock()
+	defer s.mu.Unlock()
+	a := s.started
+	s.started = nil
+	return a
 }
 
 // errStop ends a history early (a savepoint could not be written or restored: that outcome is in the observations)
@@ -346,7 +374,12 @@ func (c *cluster) deploy(n int, ckpt *snapshotpb.JobCheckpoint) error {
 		go real.Start(ctx)
 	}
 	// Start() creates the event batcher asynchronously; HandleDeploy and HandleEvent need it
-	asm := jobs.NewAssembly(protoOps, nil)
+	var srs []proto.SourceRunner
+	if c.sr != nil {
+		srs = []proto.SourceRunner{c.sr}
+	}
+	asm := jobs.NewAssembly(protoOps, srs)
+	c.asm = asm
 	cfg := &config.Config{WorkerCount: n, KeyGroupCount: c.kgc, WorkingStorageLocation: c.workDir()}
 	if err := asm.Deploy(cfg, ckpt); err != nil {
 		return err
@@ -591,6 +624,9 @@ func execHistory(mode string, c *hx.Case) (*hx.Result, error) {
 	}
 	defer os.RemoveAll(dir)
 	cl := &cluster{dir: dir, kgc: kgc, job: &fakeJob{}, handler: &refHandler{}, adapters: map[string]*opAdapter{}}
+	if mode == "c14" {
+		cl.sr = &recSR{}
+	}
 	defer func() {
 		// release the operators of this history and let the finalizers close their files
 		cl.keep, cl.ops, cl.adapters = nil, nil, nil
@@ -668,6 +704,34 @@ func execHistory(mode string, c *hx.Case) (*hx.Result, error) {
 			}
 			terms = append(terms, fmt.Sprintf("SWm %d %s", o.T, hx.CoqList(items, "N * N")))
 			jobs_ = append(jobs_, map[string]any{"wm": o.T, "fired": fmt.Sprint(fired)})
+		case "ckpt":
+			// a completed job checkpoint without a restart; the retained-checkpoints update that follows it reaches
+			// only the operators listed in perm (the others still list their older checkpoints), as when a rescale
+			// or a failure interrupts the job's asynchronous UpdateRetainedCheckpoints broadcast
+			if mode != "c06" {
+				continue
+			}
+			if _, err := cl.checkpoint(); err != nil {
+				return nil, err
+			}
+			reached := 0
+			for _, i := range o.Perm {
+				if i >= 0 && i < len(cl.ops) {
+					if err := cl.ops[i].UpdateRetainedCheckpoints(nil, []uint64{cl.ckptID}); err != nil {
+						tags["retain-update-error"] = true
+					}
+					reached++
+				}
+			}
+			if reached > 0 && reached < len(cl.ops) {
+				tags["partial-retention-update"] = true
+			} else if reached > 0 {
+				tags["full-retention-update"] = true
+			}
+			if err := cl.waitTasks(); err != nil {
+				return nil, err
+			}
+			jobs_ = append(jobs_, map[string]any{"checkpoint": cl.ckptID, "retention_update_reached": o.Perm})
 		case "rescale", "save":
 			if o.N < 1 || o.N > 8 {
 				continue
